@@ -97,6 +97,14 @@ int main() {
         } else {
           const bool s = kind == "str";
           auto val = [&](const std::string &x) { return s ? "char(" + x + ")" : x; };
+          if (o == "srch") {
+            static const char *names[] = {"find", "rfind", "find_first_of", "find_last_of", "find_first_not_of", "find_last_not_of"};
+            std::string needle = "fun(){ var s = string(); ";
+            if (a[3] != "e") for (auto &c : split(a[3], '.')) needle += "s.push_back(char(" + c + ")); ";
+            needle += "s }()";
+            const std::string nm = names[std::stoi(a[2])];
+            src = a[1] == "1" ? "v." + nm + "(" + needle + ")" : nm + "(v, " + needle + ", size_t(" + a[4] + "))";
+          } else
           src = o == "idx" ? "v[" + a[1] + "]" : o == "front" ? "v.front()" : o == "back" ? "v.back()" : o == "push" ? "v.push_back(" + val(a[1]) + ")"
               : o == "pop" ? "v.pop_back()" : o == "ins" ? "v.insert_at(" + a[1] + ", " + val(a[2]) + ")" : o == "era" ? "v.erase_at(" + a[1] + ")"
               : o == "rsz" ? "v.resize(" + a[1] + ", " + val(a[2]) + ")" : o == "sub" ? "v.substr(" + a[1] + ", " + a[2] + ")"
